@@ -27,6 +27,7 @@ RULE = ("scenarios: 1-3 client instances (own or shared hosts; profile advertisi
         "servers) x sequences of 1-8 operations over {statements, closing statements, account info, tax, profile} x {dry run, skip_profile, "
         "normal}. ~90 % through the in-process fake under urllib's opener (arbitrary host names, https), ~10 % through a real 127.0.0.1 server. "
         "A case = one scenario history; non-trivial = at least one operation whose wire trace was compared with the model")
+RULE += ' Added later: loopback servers answering 301/302/303/307/308 (no credentials may follow), one client in four with non-ASCII identities, one call in four made from a worker thread, transport failures after the request was received, profile updates that move the service URL.'
 ASSUMPTIONS = ["only the urllib branch of post_request is reachable (requests is not installed in this image)",
                "injected transport failures happen AFTER the fake server has taken the request (time-out, HTTP 500, reset): 'exactly one POST' then means not repeated; a refused connection is not injected (a retry of a request that never left is not a second POST)",
                "cookie expectations are per host, as http.cookiejar scopes them; ref_request.py reads request bodies independently",
